@@ -129,10 +129,14 @@ def _eval(case):
         want = ref_parts(clean)
         for js in (False, True):
             net = fakenet.FakeNet(segment=case.get('segment', 0))
-            net.add('h', 22, fakenet.Server(spec))
-            r = drive.run_cli(['-n'] + (['-j'] if js else []) + ['--skip-rate-test', 'h'], net)
+            if case.get('role') == 'client':
+                net.pending_clients.append(fakenet.Server(spec))
+                r = drive.run_cli(['-n'] + (['-j'] if js else []) + ['-c'], net)
+            else:
+                net.add('h', 22, fakenet.Server(spec))
+                r = drive.run_cli(['-n'] + (['-j'] if js else []) + ['--skip-rate-test', 'h'], net)
             seg = case.get('segment', 0)
-            tag = '-split-delivery' if seg else ''
+            tag = ('-split-delivery' if seg else '') + ('-client-audit' if case.get('role') == 'client' else '')
             if r.exc or r.hang:
                 fails.append([(drive.crash_sig(r) if r.exc else 'hang') + tag, r.brief()])
                 continue
@@ -168,7 +172,7 @@ def _eval(case):
                 if clean != seen and not any('non-printable' in x for x in tr.gen.get('banner contains non-printable ASCII', []) + [l for l in lines if 'non-printable' in l]):
                     fails.append(['cli-non-conforming-flag' + tag, repr(line)])
         nt = bool(header) or want[2] is not None or clean != seen or bool(case.get('segment'))
-        return mkres(case, nt=nt, classes=['cli', 'headers:%d' % min(len(header), 4), 'segment:%s' % case.get('segment', 0), 'eol:' + repr(eol)], fails=fails)
+        return mkres(case, nt=nt, classes=['cli', 'role:' + case.get('role', 'server'), 'headers:%d' % min(len(header), 4), 'segment:%s' % case.get('segment', 0), 'eol:' + repr(eol)], fails=fails)
     raise ValueError(k)
 
 
@@ -178,7 +182,9 @@ def software_st():
     plain = st.text(alphabet=PRINTABLE_NOSPACE, min_size=0, max_size=30)
     # protocol-like text *inside* a token is ordinary text (only a token that starts with it is the multi-version form)
     inner = st.tuples(st.text(alphabet='abcdefghijklmnopqrstuvwxyz_(', min_size=1, max_size=6), st.sampled_from(['SSH-1.5', 'SSH-1.3', 'SSH-0.1', 'SSH-3.0']), st.text(alphabet=')_xyz0123456789', max_size=4)).map(lambda t: t[0] + t[1] + t[2])
-    return st.one_of(plain, plain, plain, inner).filter(lambda s: not re.match(r'^SSH-\d\.', s) and not re.match(r'^\d*\s*-?SSH-\d', s))
+    # the prefix is upper case: 'ssh-1.5-bridge' is an ordinary software token
+    lower = st.tuples(st.sampled_from(['ssh-1.5', 'Ssh-2.0', 'sSH-1.99', 'ssh-2.0', 'ssH-1.3']), st.sampled_from(['-bridge', '-relay_2', '', '-x'])).map(lambda t: t[0] + t[1])
+    return st.one_of(plain, plain, plain, inner, lower).filter(lambda s: not re.match(r'^SSH-\d\.', s) and not re.match(r'^\d*\s*-?SSH-\d', s))
 
 
 def comments_st():
@@ -207,7 +213,7 @@ def line_st(dirty=True):
         if line.endswith('\t'):               # trailing blanks belong to the line terminator, which the reader trims
             line = line[:-1]
         return line
-    inj = st.one_of(st.none(), st.none(), st.tuples(st.integers(0, 60), st.sampled_from(['\x00', '\x01', '\x07', '\x1b', '\x7f', '\x80', '\xe9', '\xff', '\t', '\x1c', '\x1f', '\xc2\x85', '\xc2\xa0', '\xe2\x80\xa8', '\xc3\xa9'])))
+    inj = st.one_of(st.none(), st.none(), st.tuples(st.integers(0, 60), st.sampled_from(['\x00', '\x01', '\x07', '\x1b', '\x7f', '\x80', '\xe9', '\xff', '\t', '\x1c', '\x1f', '\xc2\x85', '\xc2\xa0', '\xe2\x80\xa8', '\xc3\xa9', '\xf0\x9f\x98\x80', '\xf0\x90\x80\x80', '\xf4\x8f\xbf\xbf', '\xef\xbf\xbd', '\xef\xbb\xbf'])))
     return st.tuples(proto_st(), software_st(), st.one_of(st.none(), comments_st()), inj).map(build)
 
 
@@ -241,12 +247,13 @@ def strat_cli():
     hdr = st.text(alphabet=PRINTABLE, min_size=1, max_size=40).filter(lambda s: s.strip() != '' and not re.match(r'^\s*SSH-\d\.', s) and s == s.rstrip() and not re.match(r'^\s*[(#]', s))
     # an identification string starts at the first byte of its line: indented look-alikes are header text
     indented = st.tuples(st.sampled_from([' ', '  ', '    ']), st.sampled_from(['SSH-2.0-Gateway_1.0 connections are logged', 'SSH-2.0-OpenSSH_8.0', 'SSH-1.99-dropbear_2020.81', 'SSH-1.5-x', 'SSH-2.0-'])).map(lambda t: t[0] + t[1])
-    hdr = st.one_of(hdr, hdr, hdr, indented)
+    lowercase = st.sampled_from(['ssh-2.0-compatible relay, connections are logged', 'Ssh-2.0-Gateway', 'sSH-1.99-x y', 'ssh-1.5-old', 'ssh-2.0-', 'SSh-2.0-OpenSSH_8.0'])      # only 'SSH-' in upper case starts an identification string
+    hdr = st.one_of(hdr, hdr, hdr, indented, lowercase)
 
     def build(t):
-        line, headers, eol, seg = t
-        return {'kind': 'cli', 'line': line, 'header': headers, 'eol': eol, 'segment': seg}
-    return st.tuples(line_st(), st.lists(hdr, min_size=0, max_size=4), st.sampled_from(['\r\n', '\n']), st.sampled_from([0, 0, 0, 1, 2, 7, 64])).map(build)
+        line, headers, eol, seg, role = t
+        return {'kind': 'cli', 'line': line, 'header': headers, 'eol': eol, 'segment': seg, 'role': role}
+    return st.tuples(line_st(), st.lists(hdr, min_size=0, max_size=4), st.sampled_from(['\r\n', '\n']), st.sampled_from([0, 0, 0, 1, 2, 7, 64]), st.sampled_from(['server', 'server', 'client'])).map(build)
 
 
 def valid_case(case):
